@@ -1023,6 +1023,13 @@ def holds(lit, assign) -> Optional[bool]:
             if isinstance(cont, sp.Tuple) and item.is_Symbol and item.name.startswith("'") and all(c.is_Symbol and c.name.startswith("'") for c in cont):
                 r = item in list(cont)
                 return r if isinstance(lit, sp.Eq) else not r
+            cn = getattr(getattr(cont, "func", None), "__name__", "")
+            if cn in ("keys", "list", "tuple", "set") and len(cont.args) == 1:
+                cont, cn = cont.args[0], getattr(getattr(cont.args[0], "func", None), "__name__", "")
+            if cn == "dict" and item.is_Symbol and item.name.startswith("'") and cont.args and \
+                    all(getattr(getattr(a_, "func", None), "__name__", "").startswith("kv_") for a_ in cont.args):
+                r = ("kv_" + item.name.strip("'")) in {a_.func.__name__ for a_ in cont.args}      # membership in the keys of a lookup table
+                return r if isinstance(lit, sp.Eq) else not r
             return None
         if b == sp.true and getattr(a, "func", None) == sp.Function("truth") and getattr(getattr(a.args[0], "func", None), "__name__", "") == "isinstance":
             obj, cls_ = a.args[0].args
